@@ -13,12 +13,16 @@ Proof. intros. unfold spec_run. apply fold_left_app. Qed.
 Lemma batch_ops_app : forall h a b, batch_ops h (a ++ b) = batch_ops h a ++ batch_ops h b.
 Proof. intros. unfold batch_ops. apply flat_map_app. Qed.
 
-Lemma batch_ok_app : forall h snap a b sp,
-  batch_ok h snap sp (a ++ b) <-> batch_ok h snap sp a /\ batch_ok h snap (spec_run sp (batch_ops h a)) b.
+Lemma snap_run_app : forall a b snap, snap_run snap (a ++ b) = snap_run (snap_run snap a) b.
+Proof. intros. unfold snap_run. apply fold_left_app. Qed.
+
+Lemma batch_ok_app : forall h a b snap sp,
+  batch_ok h snap sp (a ++ b) <->
+  batch_ok h snap sp a /\ batch_ok h (snap_run snap (batch_ops h a)) (spec_run sp (batch_ops h a)) b.
 Proof.
-  intros h snap. induction a as [|ck t IH]; intros b sp; cbn [app batch_ok].
+  intros h. induction a as [|ck t IH]; intros b snap sp; cbn [app batch_ok].
   - cbn. tauto.
-  - rewrite IH. cbn [batch_ops flat_map]. fold (batch_ops h t). rewrite spec_run_app. tauto.
+  - rewrite IH. cbn [batch_ops flat_map]. fold (batch_ops h t). rewrite spec_run_app, snap_run_app. tauto.
 Qed.
 
 Lemma callbacks_g_cons : forall runs cr t,
@@ -34,44 +38,44 @@ Variable reach : S -> spec -> Prop.
 Hypothesis step_ok : forall st sp o, reach st sp -> sguard sp o ->
   exists st' act, step st o = Ok (st', act) /\ reach st' (spec_step sp o).
 
-Lemma run_cb_ops_ok : forall snap cur ops st sp, reach st sp -> cb_ops_ok snap cur sp ops ->
-  exists st', run_cb_ops S step snap cur st ops = Ok st' /\ reach st' (spec_run sp ops).
+Lemma run_cb_ops_ok : forall cur ops snap st sp, reach st sp -> cb_ops_ok snap cur sp ops ->
+  exists st', run_cb_ops S step snap cur st ops = Ok (st', snap_run snap ops) /\ reach st' (spec_run sp ops).
 Proof.
-  induction ops as [|o t IH]; intros st sp R H.
+  intros cur. induction ops as [|o t IH]; intros snap st sp R H.
   - exists st. split; [reflexivity|exact R].
   - destruct H as [LG [G H]]. cbn [run_cb_ops]. rewrite LG.
     destruct (step_ok st sp o R G) as [st1 [act [E R1]]]. rewrite E. cbn [bind fst].
-    destruct (IH st1 (spec_step sp o) R1 H) as [st' [E' R']]. exists st'. split; [exact E'|exact R'].
+    destruct (IH (snap_step snap o) st1 (spec_step sp o) R1 H) as [st' [E' R']]. exists st'. split; [exact E'|exact R'].
 Qed.
 
-Lemma dispatch_cbs_ok : forall h snap cur ks st sp, reach st sp ->
+Lemma dispatch_cbs_ok : forall h cur ks snap st sp, reach st sp ->
   batch_ok h snap sp (map (pair cur) ks) ->
-  exists st', dispatch_cbs S step h snap cur st ks = Ok (st', map (pair cur) ks) /\
+  exists st', dispatch_cbs S step h snap cur st ks =
+                Ok (st', snap_run snap (batch_ops h (map (pair cur) ks)), map (pair cur) ks) /\
               reach st' (spec_run sp (batch_ops h (map (pair cur) ks))).
 Proof.
-  induction ks as [|k t IH]; intros st sp R H.
+  intros h cur. induction ks as [|k t IH]; intros snap st sp R H.
   - exists st. split; [reflexivity|exact R].
   - cbn [map batch_ok fst snd] in H. destruct H as [H1 H2].
-    destruct (run_cb_ops_ok snap cur (h cur k) st sp R H1) as [st1 [E1 R1]].
-    destruct (IH st1 _ R1 H2) as [st' [E' R']].
-    cbn [dispatch_cbs]. rewrite E1. cbn [bind]. rewrite E'. cbn [bind fst snd].
-    exists st'. split; [reflexivity|].
-    cbn [map batch_ops flat_map fst snd]. fold (batch_ops h (map (pair cur) t)).
-    rewrite spec_run_app. exact R'.
+    destruct (run_cb_ops_ok cur (h cur k) snap st sp R H1) as [st1 [E1 R1]].
+    destruct (IH _ st1 _ R1 H2) as [st' [E' R']].
+    cbn [dispatch_cbs]. rewrite E1. cbn [bind fst snd]. rewrite E'. cbn [bind fst snd].
+    exists st'. cbn [map batch_ops flat_map fst snd]. fold (batch_ops h (map (pair cur) t)).
+    rewrite spec_run_app, snap_run_app. split; [reflexivity|exact R'].
 Qed.
 
 (* EVERY entry of the snapshot gets its callbacks, computed from the revents of poll time, whatever
    the earlier callbacks of the batch did; the poller ends in the state the callbacks' ops lead to *)
-Lemma dispatch_batch_ok : forall h runs snap act st sp, reach st sp ->
+Lemma dispatch_batch_ok : forall h runs act snap st sp, reach st sp ->
   batch_ok h snap sp (callbacks_g runs act) ->
   exists st', dispatch_batch S step h runs snap st act = Ok (st', callbacks_g runs act) /\
               reach st' (spec_run sp (batch_ops h (callbacks_g runs act))).
 Proof.
-  induction act as [|cr t IH]; intros st sp R H.
+  intros h runs. induction act as [|cr t IH]; intros snap st sp R H.
   - exists st. split; [reflexivity|exact R].
   - rewrite callbacks_g_cons in H. apply batch_ok_app in H. destruct H as [H1 H2].
-    destruct (dispatch_cbs_ok h snap (fst cr) _ st sp R H1) as [st1 [E1 R1]].
-    destruct (IH st1 _ R1 H2) as [st' [E' R']].
+    destruct (dispatch_cbs_ok h (fst cr) _ snap st sp R H1) as [st1 [E1 R1]].
+    destruct (IH _ st1 _ R1 H2) as [st' [E' R']].
     cbn [dispatch_batch]. rewrite E1. cbn [bind fst snd]. rewrite E'. cbn [bind fst snd].
     exists st'. split; [rewrite callbacks_g_cons; reflexivity|].
     rewrite callbacks_g_cons, batch_ops_app, spec_run_app. exact R'.
@@ -84,7 +88,7 @@ Lemma loop_iter_ok : forall h runs st sp ready choice st1 act,
               reach st' (spec_run sp (batch_ops h (callbacks_g runs act))).
 Proof.
   intros h runs st sp ready choice st1 act E R H.
-  destruct (dispatch_batch_ok h runs (map fst act) act st1 sp R H) as [st' [E' R']].
+  destruct (dispatch_batch_ok h runs act (map fst act) st1 sp R H) as [st' [E' R']].
   unfold loop_iter. rewrite E. cbn [bind fst snd]. rewrite E'. cbn [bind fst snd].
   exists st'. split; [reflexivity|exact R'].
 Qed.
@@ -207,9 +211,9 @@ Definition loop_channels (sp : spec) (wc tc wfd tfd : nat) : Prop :=
   (exists rm, sp wc = Some (mkSch wfd kReadEvent true rm)) /\
   (exists rm, sp tc = Some (mkSch tfd kReadEvent true rm)).
 
-(* no other registered channel has anything to report *)
+(* no other registered channel with some interest enabled has anything to report *)
 Definition others_quiet (sp : spec) (wc tc : nat) (e : kenv) : Prop :=
-  forall c s, sp c = Some s -> s_reg s = true -> c <> wc -> c <> tc ->
+  forall c s, sp c = Some s -> s_reg s = true -> s_ev s <> 0%N -> c <> wc -> c <> tc ->
     N.land (k_rd e (s_fd s)) (N.lor (s_ev s) EHN) = 0%N.
 
 Lemma reports_char : forall sp wc tc wfd tfd e, spec_unique sp -> loop_channels sp wc tc wfd tfd ->
@@ -447,7 +451,7 @@ Proof.
   split; [exact KW|]. split; [exact KT|]. split; [exact KR|].
   intros c r HR.
   assert (Q' : others_quiet sp wc tc e').
-  { intros c0 s0 A B C D. rewrite KR. apply (Q c0 s0); assumption. }
+  { intros c0 s0 A B C D E0. rewrite KR. apply (Q c0 s0); assumption. }
   apply (reports_char sp wc tc wfd tfd e' U (conj NE LC') Q') in HR.
   destruct HR as [[_ [L _]]|[_ [L _]]]; lia.
 Qed.
@@ -497,7 +501,7 @@ Proof.
   assert (KR : k_rd e' = k_rd e) by (apply (effects_rd rd sem sz trd tsz wc tc user NE); auto).
   split; [exact KW|].
   assert (Q' : others_quiet sp wc tc e').
-  { intros c0 s0 A B C D. rewrite KR. apply (Q c0 s0); assumption. }
+  { intros c0 s0 A B C D E0. rewrite KR. apply (Q c0 s0); assumption. }
   apply (reports_char sp wc tc wfd tfd e' U (conj NE LC') Q'). left. rewrite KW. auto.
 Qed.
 End Wake.
@@ -636,4 +640,283 @@ Proof.
     as [st' [act [e' [E [R' [A [KW SR]]]]]]].
   exists st', act, e'. split; [exact E|]. split; [exact R'|]. split; [exact A|]. split; [exact KW|].
   now apply (ep_full_in st' sp _ wc POLLIN (reachEC_inv _ _ R')).
+Qed.
+
+(* ==== 3. the whole iteration (doPendingFunctors), several iterations, "blocks iff" ======================= *)
+Lemma queue_wake_link : forall a b c, EventLoop_queueInLoop_wake_guard a b c = queue_wakes a b c.
+Proof. intros [|] [|] [|]; reflexivity. Qed.
+Lemma pending_after_dispatch_current : EventLoop_loop_pending_after_dispatch = true.
+Proof. reflexivity. Qed.
+Lemma doPending_swaps_current : EventLoop_doPendingFunctors_swaps = true.
+Proof. reflexivity. Qed.
+
+Lemma functors_ops_app : forall fb a b, functors_ops fb (a ++ b) = functors_ops fb a ++ functors_ops fb b.
+Proof. intros. unfold functors_ops. apply flat_map_app. Qed.
+
+Section Full.
+Variable S : Type.
+Variable step : S -> op -> res (S * active).
+Variable reach : S -> spec -> Prop.
+Hypothesis step_ok : forall st sp o, reach st sp -> sguard sp o ->
+  exists st' act, step st o = Ok (st', act) /\ reach st' (spec_step sp o).
+
+Lemma run_ops_ok : forall ops st sp, reach st sp -> ops_ok sp ops ->
+  exists st', run_ops S step st ops = Ok st' /\ reach st' (spec_run sp ops).
+Proof.
+  induction ops as [|o t IH]; intros st sp R H.
+  - exists st. split; [reflexivity|exact R].
+  - destruct H as [NP [G H]].
+    destruct (step_ok st sp o R G) as [st1 [act [E R1]]].
+    destruct (IH st1 (spec_step sp o) R1 H) as [st' [E' R']].
+    exists st'. split; [|exact R'].
+    destruct o; try contradiction; cbn [run_ops]; rewrite E; cbn [bind fst]; exact E'.
+Qed.
+
+Lemma run_functors_ok : forall fb ids st sp, reach st sp -> functors_ok fb sp ids ->
+  exists st', run_functors S step fb st ids = Ok (st', functors_queued fb ids) /\
+              reach st' (spec_run sp (functors_ops fb ids)).
+Proof.
+  intros fb. induction ids as [|i t IH]; intros st sp R H.
+  - exists st. split; [reflexivity|exact R].
+  - destruct H as [H1 H2].
+    destruct (run_ops_ok (fst (fb i)) st sp R H1) as [st1 [E1 R1]].
+    destruct (IH st1 _ R1 H2) as [st' [E' R']].
+    exists st'. cbn [run_functors]. rewrite E1. cbn [bind]. rewrite E'. cbn [bind fst snd].
+    split; [reflexivity|].
+    unfold functors_ops. cbn [flat_map]. fold (functors_ops fb t). rewrite spec_run_app. exact R'.
+Qed.
+
+(* everything that is pending when doPendingFunctors starts -- queued before the poll or by a callback of
+   this batch -- runs in this iteration, once, in order; what the functors queue stays for the next one *)
+Lemma loop_iter_full_ok : forall h hq fb runs st sp ready choice pending st1 act,
+  step st (Poll ready choice) = Ok (st1, act) -> reach st1 sp ->
+  batch_ok h (map fst act) sp (callbacks_g runs act) ->
+  let log := callbacks_g runs act in
+  let ran := pending ++ flat_map (fun ck => hq (fst ck) (snd ck)) log in
+  functors_ok fb (spec_run sp (batch_ops h log)) ran ->
+  exists st', loop_iter_full S step h hq fb runs st ready choice pending =
+                Ok (st', act, log, ran, functors_queued fb ran) /\
+              reach st' (spec_run (spec_run sp (batch_ops h log)) (functors_ops fb ran)).
+Proof.
+  intros h hq fb runs st sp ready choice pending st1 act E R1 B log ran F.
+  destruct (loop_iter_ok S step reach step_ok h runs st sp ready choice st1 act E R1 B) as [st2 [E2 R2]].
+  destruct (run_functors_ok fb ran st2 _ R2 F) as [st' [E3 R3]].
+  exists st'. unfold loop_iter_full. rewrite E2. cbn [bind fst snd]. fold log. fold ran.
+  rewrite E3. cbn [bind fst snd]. split; [reflexivity|exact R3].
+Qed.
+End Full.
+
+(* ---- "blocks iff": nothing reportable <-> wake-up counter 0, timerfd not due, no other channel ready --- *)
+Lemma reports_internal : forall sp wc tc wfd tfd e, spec_unique sp -> loop_channels sp wc tc wfd tfd ->
+  ((0 < k_wake e)%N -> spec_reports sp (env_ready wfd tfd e) wc POLLIN) /\
+  ((0 < k_texp e)%N -> spec_reports sp (env_ready wfd tfd e) tc POLLIN).
+Proof.
+  intros sp wc tc wfd tfd e U [NE [[rmw Hw] [rmt Ht]]].
+  assert (FD : wfd <> tfd). { intros E. apply NE. eapply (U wc tc); eauto. }
+  split; intros L.
+  - eexists. split; [exact Hw|]. cbn [s_reg s_ev s_fd]. split; [reflexivity|]. split; [apply kRead_nonzero|].
+    split; [|apply pollin_nonzero]. unfold env_ready. rewrite Nat.eqb_refl. unfold eventfd_ready.
+    destruct (N.ltb_spec 0 (k_wake e)); [|lia]. now rewrite wake_rev_pos.
+  - eexists. split; [exact Ht|]. cbn [s_reg s_ev s_fd]. split; [reflexivity|]. split; [apply kRead_nonzero|].
+    split; [|apply pollin_nonzero]. unfold env_ready.
+    destruct (Nat.eqb_spec tfd wfd) as [X|_]; [congruence|]. rewrite Nat.eqb_refl. unfold timerfd_ready.
+    destruct (N.ltb_spec 0 (k_texp e)); [|lia]. now rewrite timer_rev_pos.
+Qed.
+
+Lemma blocks_iff : forall sp wc tc wfd tfd e, spec_unique sp -> loop_channels sp wc tc wfd tfd ->
+  ((forall c r, ~ spec_reports sp (env_ready wfd tfd e) c r) <->
+   (k_wake e = 0%N /\ k_texp e = 0%N /\ others_quiet sp wc tc e)).
+Proof.
+  intros sp wc tc wfd tfd e U LC. destruct (reports_internal sp wc tc wfd tfd e U LC) as [RW RT]. split.
+  - intros NR. split; [|split].
+    + destruct (N.eq_dec (k_wake e) 0) as [Z|NZ]; [exact Z|]. exfalso. apply (NR wc POLLIN), RW. lia.
+    + destruct (N.eq_dec (k_texp e) 0) as [Z|NZ]; [exact Z|]. exfalso. apply (NR tc POLLIN), RT. lia.
+    + intros c s A B C N1 N2.
+      destruct (N.eq_dec (N.land (k_rd e (s_fd s)) (N.lor (s_ev s) EHN)) 0) as [Z|NZ]; [exact Z|].
+      exfalso. apply (NR c (N.land (k_rd e (s_fd s)) (N.lor (s_ev s) EHN))).
+      destruct LC as [NE [[rmw Hw] [rmt Ht]]].
+      exists s. split; [exact A|]. split; [exact B|]. split; [exact C|]. split; [|exact NZ].
+      unfold env_ready.
+      destruct (Nat.eqb_spec (s_fd s) wfd) as [X|_].
+      { exfalso. apply N1. eapply (U c wc); eauto. }
+      destruct (Nat.eqb_spec (s_fd s) tfd) as [X|_].
+      { exfalso. apply N2. eapply (U c tc); eauto. }
+      reflexivity.
+  - intros [KW [KT Q]] c r HR. apply (reports_char sp wc tc wfd tfd e U LC Q) in HR.
+    destruct HR as [[_ [L _]]|[_ [L _]]]; lia.
+Qed.
+
+(* ---- queued tasks: a non-empty queue at poll time always comes with a pending wake-up ------------------- *)
+Definition pend_inv (e : kenv) (p : list nat) : Prop := p <> [] -> (0 < k_wake e)%N.
+
+Lemma pend_inv_blocked_empty : forall e p, pend_inv e p -> k_wake e = 0%N -> p = [].
+Proof. intros e [|i t] H Z; [reflexivity|]. exfalso. assert (0 < k_wake e)%N by (apply H; discriminate). lia. Qed.
+
+Lemma wake_add_wake : forall n e, k_wake (wake_add n e) = (k_wake e + N.of_nat n)%N.
+Proof. reflexivity. Qed.
+
+Section Run.
+Variable qw : bool -> bool -> bool -> bool.
+Hypothesis qw_foreign : qw false false true = true.      (* queueInLoop from another thread wakes *)
+Hypothesis qw_calling : qw true true true = true.        (* queueInLoop from a running functor wakes *)
+
+Lemma apply_ext_inv : forall e p x, pend_inv e p ->
+  pend_inv (fst (apply_ext qw (e, p) x)) (snd (apply_ext qw (e, p) x)).
+Proof.
+  intros e p x H. destruct x; cbn [apply_ext fst snd].
+  - intros _. rewrite wake_add_wake. lia.
+  - exact H.
+  - exact H.
+  - rewrite qw_foreign. intros _. rewrite wake_add_wake. lia.
+Qed.
+
+Lemma fold_ext_inv : forall xs e p, pend_inv e p ->
+  pend_inv (fst (fold_left (apply_ext qw) xs (e, p))) (snd (fold_left (apply_ext qw) xs (e, p))).
+Proof.
+  induction xs as [|x t IH]; intros e p H; [exact H|].
+  cbn [fold_left]. destruct (apply_ext qw (e, p) x) as [e1 p1] eqn:E.
+  apply IH. pose proof (apply_ext_inv e p x H) as H1. rewrite E in H1. exact H1.
+Qed.
+
+Section RunS.
+Variable S : Type.
+Variable step : S -> op -> res (S * active).
+Variables (h : handlers) (hq : nat -> cb -> list nat) (fb : fnbody) (runs : nat -> bool).
+Variable eff : nat -> cb -> kenv -> kenv.
+Variables (wfd tfd : nat).
+
+(* whatever the iteration did: what it leaves in the queue was queued by running functors, each of which
+   called wakeup() AFTER the wake-up channel's read callback of this batch had run *)
+Lemma iter_env_inv : forall st e p choice st' e' p' out,
+  loop_iter_full_env S step h hq fb runs eff qw wfd tfd st e p choice = Ok (st', e', p', out) ->
+  pend_inv e' p'.
+Proof.
+  intros st e p choice st' e' p' out E. unfold loop_iter_full_env in E.
+  destruct (loop_iter_full S step h hq fb runs st (env_ready wfd tfd e) choice p) as [[[[[a b] c] d] q]| |];
+    cbn [bind] in E; try discriminate.
+  rewrite qw_calling in E. injection E as <- <- <- <-.
+  intros NE. rewrite wake_add_wake. destruct q as [|i t]; [contradiction|]. cbn [length]. lia.
+Qed.
+
+Lemma loop_run_inv : forall ins st e p st' e' p' outs,
+  pend_inv e p ->
+  loop_run S step h hq fb runs eff qw wfd tfd st e p ins = Ok (st', e', p', outs) ->
+  pend_inv e' p' /\ Forall (fun o => pend_inv (fst (fst o)) (snd (fst o))) outs.
+Proof.
+  induction ins as [|[xs choice] t IH]; intros st e p st' e' p' outs H E.
+  - cbn [loop_run] in E. injection E as <- <- <- <-. split; [exact H|constructor].
+  - cbn [loop_run] in E.
+    pose proof (fold_ext_inv xs e p H) as H1.
+    destruct (fold_left (apply_ext qw) xs (e, p)) as [e1 p1]. cbn [fst snd] in *.
+    destruct (loop_iter_full_env S step h hq fb runs eff qw wfd tfd st e1 p1 choice) as [[[[st2 e2] p2] out]| |] eqn:E1;
+      cbn [bind] in E; try discriminate.
+    pose proof (iter_env_inv _ _ _ _ _ _ _ _ E1) as H2.
+    destruct (loop_run S step h hq fb runs eff qw wfd tfd st2 e2 p2 t) as [[[[st3 e3] p3] outs3]| |] eqn:E2;
+      cbn [bind] in E; try discriminate.
+    injection E as <- <- <- <-.
+    destruct (IH _ _ _ _ _ _ _ H2 E2) as [A B]. split; [exact A|]. constructor; [exact H1|exact B].
+Qed.
+End RunS.
+End Run.
+
+(* the guard generated from EventLoop::queueInLoop satisfies both hypotheses *)
+Lemma qw_current_foreign : EventLoop_queueInLoop_wake_guard false false true = true.
+Proof. reflexivity. Qed.
+Lemma qw_current_calling : EventLoop_queueInLoop_wake_guard true true true = true.
+Proof. reflexivity. Qed.
+
+(* ---- instances -------------------------------------------------------------------------------------------- *)
+Lemma iteration_full_E : forall h hq fb runs st sp ready choice pending st1 act,
+  reachEC st sp -> ep_step_current st (Poll ready choice) = Ok (st1, act) ->
+  batch_ok h (map fst act) sp (callbacks_g runs act) ->
+  functors_ok fb (spec_run sp (batch_ops h (callbacks_g runs act)))
+    (pending ++ flat_map (fun ck => hq (fst ck) (snd ck)) (callbacks_g runs act)) ->
+  exists st', ep_loop_iter_full h hq fb runs st ready choice pending =
+      Ok (st', act, callbacks_g runs act,
+          pending ++ flat_map (fun ck => hq (fst ck) (snd ck)) (callbacks_g runs act),
+          functors_queued fb (pending ++ flat_map (fun ck => hq (fst ck) (snd ck)) (callbacks_g runs act))) /\
+    reachEC st' (spec_run (spec_run sp (batch_ops h (callbacks_g runs act)))
+                   (functors_ops fb (pending ++ flat_map (fun ck => hq (fst ck) (snd ck)) (callbacks_g runs act)))).
+Proof.
+  intros h hq fb runs st sp ready choice pending st1 act R E B F.
+  destruct (ep_poll_sound _ _ _ _ _ _ R E) as [R1 _].
+  exact (loop_iter_full_ok ep ep_step_current reachEC ep_step_reach h hq fb runs st sp ready choice pending st1 act E R1 B F).
+Qed.
+Lemma iteration_full_P : forall h hq fb runs st sp ready choice pending st1 act,
+  reachPC st sp -> pp_step_current st (Poll ready choice) = Ok (st1, act) ->
+  batch_ok h (map fst act) sp (callbacks_g runs act) ->
+  functors_ok fb (spec_run sp (batch_ops h (callbacks_g runs act)))
+    (pending ++ flat_map (fun ck => hq (fst ck) (snd ck)) (callbacks_g runs act)) ->
+  exists st', pp_loop_iter_full_current h hq fb runs st ready choice pending =
+      Ok (st', act, callbacks_g runs act,
+          pending ++ flat_map (fun ck => hq (fst ck) (snd ck)) (callbacks_g runs act),
+          functors_queued fb (pending ++ flat_map (fun ck => hq (fst ck) (snd ck)) (callbacks_g runs act))) /\
+    reachPC st' (spec_run (spec_run sp (batch_ops h (callbacks_g runs act)))
+                   (functors_ops fb (pending ++ flat_map (fun ck => hq (fst ck) (snd ck)) (callbacks_g runs act)))).
+Proof.
+  intros h hq fb runs st sp ready choice pending st1 act R E B F.
+  destruct (pp_poll_sound _ _ _ _ _ _ R E) as [R1 _].
+  exact (loop_iter_full_ok pp pp_step_current reachPC pp_step_reach h hq fb runs st sp ready choice pending st1 act E R1 B F).
+Qed.
+
+(* the last sentence of the property, epoll: in a reachable state with the loop's two channels registered,
+   the kernel has nothing to return (epoll_wait blocks) iff the wake-up counter is zero, the timerfd is not
+   due and no other registered channel is ready -- and then no task is queued *)
+Lemma idle_blocks_iff_E : forall st sp wc tc wfd tfd e p,
+  reachEC st sp -> loop_channels sp wc tc wfd tfd -> pend_inv e p ->
+  (ep_full st (env_ready wfd tfd e) = [] <->
+     (k_wake e = 0%N /\ k_texp e = 0%N /\ others_quiet sp wc tc e)) /\
+  (ep_full st (env_ready wfd tfd e) = [] -> p = []).
+Proof.
+  intros st sp wc tc wfd tfd e p R LC PI.
+  pose proof (blocks_iff sp wc tc wfd tfd e (reachE_unique _ _ R) LC) as BI.
+  assert (EQ : ep_full st (env_ready wfd tfd e) = [] <-> (forall c r, ~ spec_reports sp (env_ready wfd tfd e) c r)).
+  { split.
+    - intros Z c r HR. apply (ep_full_in st sp _ c r (reachEC_inv _ _ R)) in HR. rewrite Z in HR. exact HR.
+    - intros NR. now apply (ep_full_nil st sp). }
+  split.
+  - rewrite EQ. exact BI.
+  - intros Z. destruct (proj1 BI (proj1 EQ Z)) as [KW _]. now apply (pend_inv_blocked_empty e p).
+Qed.
+
+Lemma idle_blocks_iff_P : forall st sp wc tc wfd tfd e p choice,
+  reachPC st sp -> loop_channels sp wc tc wfd tfd -> pend_inv e p ->
+  (pp_step_current st (Poll (env_ready wfd tfd e) choice) = Ok (st, []) <->
+     (k_wake e = 0%N /\ k_texp e = 0%N /\ others_quiet sp wc tc e)) /\
+  (pp_step_current st (Poll (env_ready wfd tfd e) choice) = Ok (st, []) -> p = []).
+Proof.
+  intros st sp wc tc wfd tfd e p choice R LC PI.
+  pose proof (blocks_iff sp wc tc wfd tfd e (reachPC_unique _ _ R) LC) as BI.
+  destruct (reachPC_refines st sp R (Poll (env_ready wfd tfd e) choice)) as [A _].
+  destruct (A Logic.I) as [st' [act [E [_ [-> IFF]]]]].
+  assert (EQ : pp_step_current st (Poll (env_ready wfd tfd e) choice) = Ok (st, []) <->
+               (forall c r, ~ spec_reports sp (env_ready wfd tfd e) c r)).
+  { rewrite E. split.
+    - intros Z c r HR. injection Z as Z. apply IFF in HR. rewrite Z in HR. exact HR.
+    - intros NR. f_equal. f_equal. destruct act as [|[c r] t]; [reflexivity|]. exfalso. apply (NR c r), IFF. now left. }
+  split.
+  - rewrite EQ. exact BI.
+  - intros Z. destruct (proj1 BI (proj1 EQ Z)) as [KW _]. now apply (pend_inv_blocked_empty e p).
+Qed.
+
+(* any run of the loop (any back-end, any callbacks / functors / external events) with the wake-up guard
+   generated from EventLoop::queueInLoop: at every poll, a non-empty queue comes with a pending wake-up *)
+Lemma queued_task_wakes_current : forall S step h hq fb runs eff wfd tfd ins st e p st' e' p' outs,
+  pend_inv e p ->
+  loop_run S step h hq fb runs eff EventLoop_queueInLoop_wake_guard wfd tfd st e p ins = Ok (st', e', p', outs) ->
+  pend_inv e' p' /\ Forall (fun o => pend_inv (fst (fst o)) (snd (fst o))) outs.
+Proof.
+  intros S step h hq fb runs eff wfd tfd ins st e p st' e' p' outs H E.
+  exact (loop_run_inv EventLoop_queueInLoop_wake_guard qw_current_foreign qw_current_calling
+           S step h hq fb runs eff wfd tfd ins st e p st' e' p' outs H E).
+Qed.
+
+(* a queued task keeps the loop from blocking (epoll): the wake-up channel is in the kernel's ready set *)
+Lemma queued_task_not_blocked_E : forall st sp wc tc wfd tfd e p,
+  reachEC st sp -> loop_channels sp wc tc wfd tfd -> pend_inv e p -> p <> [] ->
+  In (wc, POLLIN) (ep_full st (env_ready wfd tfd e)).
+Proof.
+  intros st sp wc tc wfd tfd e p R LC PI NE.
+  apply (ep_full_in st sp _ wc POLLIN (reachEC_inv _ _ R)).
+  apply (reports_internal sp wc tc wfd tfd e (reachE_unique _ _ R) LC). now apply PI.
 Qed.
